@@ -749,6 +749,9 @@ func (v *VMValue) OpAdd(ctx *Context, v2 *VMValue) *VMValue {
 		switch v2.TypeId {
 		case VMTypeString:
 			val := v.Value.(string) + v2.Value.(string)
+			if !ctx.chargeStringLength(len(val)) {
+				return nil
+			}
 			return NewStrVal(val)
 		}
 	case VMTypeArray:
@@ -1538,6 +1541,19 @@ func (v *VMValue) ComputedExecute(ctx *Context, detail *BufferSpan) *VMValue {
 		detail.Text = detailText
 	}
 	return ret
+}
+
+// chargeStringLength charges a newly built string to the operation budget (one
+// operation per 16 bytes): repeated doubling (x = x + x) otherwise reaches
+// gigabytes within a few dozen counted instructions. It reports false, with the
+// budget error set, when the limit is exceeded.
+func (ctx *Context) chargeStringLength(n int) bool {
+	ctx.NumOpCount = opCountAdd(ctx.NumOpCount, IntType(n/16))
+	if ctx.Config.OpCountLimit > 0 && ctx.NumOpCount > ctx.Config.OpCountLimit {
+		ctx.Error = errors.New("允许算力上限")
+		return false
+	}
+	return true
 }
 
 // opCountAdd adds to an operation count without wrapping around.
